@@ -105,6 +105,12 @@ def _oracle(args):
     for n in notes:
         if len(n) == 1 and n[0].tag == ns + 'p' and n[0].text == '(content missing)' and len(n[0]) == 0:
             Pm[n.get('marker')] = Pm.get(n.get('marker'), 0) + 1
+    # a reference that did not get the placeholder took a block of its own marker, and every block is taken once: per marker, no more
+    # such notes than blocks (a note left empty although there never was a block for it is lost content: the placeholder is the record
+    # that the reference dangles)
+    for m, rm in Rm.items():
+        if rm - Pm.get(m, 0) > Bm.get(m, 0):
+            return ('bad', '%d reference(s) with marker %r did not get the placeholder, but the document has only %d FOOTNOTE %s block(s)' % (rm - Pm.get(m, 0), m, Bm.get(m, 0), m), R, B)
     for m, pm in Pm.items():
         # every reference that did not get the placeholder used one block: what is left of the blocks with this marker
         left_m = Bm.get(m, 0) - (Rm.get(m, 0) - pm)
